@@ -567,6 +567,8 @@ def _is_callable_term(t):
         return True
     if len(t) == 2 and t[0] == "global" and t[1].startswith("const:"):
         return True  # a module constant (a record, a table, a compiled pattern): specialise on it
+    if t[0] == "lit" and len(t) == 4 and t[1] == "tuple" and t[2] and all(_is_callable_term(x) or is_const(x) for x in t[2]) and any(_is_callable_term(x) for x in t[2]):
+        return True  # a tuple of classes / functions (isinstance(x, TYPES), a table row)
     if t[0] == "partial" and len(t) == 4:
         return _is_callable_term(t[1]) or (isinstance(t[1], tuple) and t[1] and t[1][0] == "global")
     return False
@@ -605,7 +607,7 @@ def build_summary(eng, fi, clsbind, inline=frozenset(), funargs=()):
 
     # private helpers of the function's own module are always inlined path by path: a public
     # function and the helpers it was split into are analysed as one unit
-    inline = frozenset(inline) | (eng.private_helpers(fi.mod.short) - {fi.qualname})
+    inline = frozenset(inline) | (eng.private_helpers(fi.mod.short) - {fi.qualname}) | (eng.internal_helpers() - {fi.qualname})
     w = Walker(eng, fi, clsbind, inline)
     w.funargs = dict(funargs)
     paths = w.run()
